@@ -2047,7 +2047,19 @@ static std::unique_ptr<sdkscope::ScopeConfigurator<Config>> build_configurator(c
     }
   }
   // the builder dies here; the configurator must own everything it needs
-  return std::make_unique<sdkscope::ScopeConfigurator<Config>>(b.Build());
+  auto built = std::make_unique<sdkscope::ScopeConfigurator<Config>>(b.Build());
+  if (r.chance(1, 3))
+  {
+    // ... and must be a snapshot of the rule list at Build() time: the builder is used again afterwards (a
+    // catch-all rule with the opposite of the default, then a second Build) - the first configurator must not
+    // notice (from seeded change C19-w6-2)
+    b.AddCondition([](const sdkscope::InstrumentationScope &) { return true; },
+                   rl.default_enabled ? Config::Disabled() : Config::Enabled());
+    auto second = b.Build();
+    (void)second;
+    vf::report().count("configurator_builders_reused_after_build");
+  }
+  return built;
 }
 
 struct SpanRec
